@@ -273,40 +273,47 @@ func runC18(cx *Ctx, r *Report) {
 				_ = req
 			}
 		}
-		// the due height must not wrap: msg.BlockInterval is an unsigned 64-bit value that
-		// is converted to a signed height and added to the current one. Unguarded, an
-		// interval ≥ 2^63 − h queues the request under a height that is already past (or
-		// negative): it is never served and never leaves the queue.
-		if len(enq) == 1 {
-			conv := ""
-			for f := enq[0].ev.Fr; f != nil && conv == ""; f = f.Parent {
-				for _, b := range f.Fn.Blocks {
-					for _, ins := range b.Instrs {
-						cv, isC := ins.(*ssa.Convert)
-						if !isC {
-							continue
-						}
-						from, ok1 := cv.X.Type().Underlying().(*types.Basic)
-						to, ok2 := cv.Type().Underlying().(*types.Basic)
-						if ok1 && ok2 && from.Info()&types.IsUnsigned != 0 && to.Info()&types.IsInteger != 0 && to.Info()&types.IsUnsigned == 0 {
-							if _, isP := cv.X.(*ssa.Parameter); isP {
-								conv = cx.P.Pos(cv.Pos())
-							}
-						}
-					}
-				}
-			}
-			guard := ""
-			if conv != "" {
-				guard = noWrapFact(enq[0].w.FactsAt(enq[0].ev.Fr, enq[0].ev.Site), "(sdk.Context.BlockHeight() + msg.BlockInterval)", "sdk.Context.BlockHeight()", "msg.BlockInterval")
-			}
-			r.check(conv == "" || guard != "", "due-height-no-wrap", "RequestRandom", enq[0].ev.Pos(cx), "the unsigned interval is converted to a signed height under the guard "+guard, "the unsigned msg.BlockInterval is converted to a signed height at "+conv+" and added to the current height with no bound or wrap-around check: an interval ≥ 2^63 − h queues the request under a past or negative height, where no begin blocker ever looks - it is never fulfilled and never leaves the queue")
-		}
+		cx.randomDueNoWrap(r, enq)
 		r.check(ok, "due-height", "RequestRandom", pos, "a request made at height h with interval n is queued, on every successful path, under exactly h + n (the begin blocker of h+n+1 serves the queue of the previous height)", fmt.Sprintf("the request is queued under %q (expected exactly current height + msg.BlockInterval, on every successful path; %d enqueue sites)", got, len(enq)))
 	}
 	r.requireCount("due-height", 1)
 	r.requireCount("prng-provenance", 2)
 	r.requireCount("range-by-construction", 1)
+}
+
+// randomDueNoWrap: the due height of a new random request must not wrap (shared by
+// C18, which owns the request's due height, and C13, whose "one entry at its due
+// height" fails when the entry lands on a height that is already past).
+func (cx *Ctx) randomDueNoWrap(r *Report, enq []hev) {
+	// the due height must not wrap: msg.BlockInterval is an unsigned 64-bit value that
+	// is converted to a signed height and added to the current one. Unguarded, an
+	// interval ≥ 2^63 − h queues the request under a height that is already past (or
+	// negative): it is never served and never leaves the queue.
+	if len(enq) == 1 {
+		conv := ""
+		for f := enq[0].ev.Fr; f != nil && conv == ""; f = f.Parent {
+			for _, b := range f.Fn.Blocks {
+				for _, ins := range b.Instrs {
+					cv, isC := ins.(*ssa.Convert)
+					if !isC {
+						continue
+					}
+					from, ok1 := cv.X.Type().Underlying().(*types.Basic)
+					to, ok2 := cv.Type().Underlying().(*types.Basic)
+					if ok1 && ok2 && from.Info()&types.IsUnsigned != 0 && to.Info()&types.IsInteger != 0 && to.Info()&types.IsUnsigned == 0 {
+						if _, isP := cv.X.(*ssa.Parameter); isP {
+							conv = cx.P.Pos(cv.Pos())
+						}
+					}
+				}
+			}
+		}
+		guard := ""
+		if conv != "" {
+			guard = noWrapFact(enq[0].w.FactsAt(enq[0].ev.Fr, enq[0].ev.Site), "(sdk.Context.BlockHeight() + msg.BlockInterval)", "sdk.Context.BlockHeight()", "msg.BlockInterval")
+		}
+		r.check(conv == "" || guard != "", "due-height-no-wrap", "RequestRandom", enq[0].ev.Pos(cx), "the unsigned interval is converted to a signed height under the guard "+guard, "the unsigned msg.BlockInterval is converted to a signed height at "+conv+" and added to the current height with no bound or wrap-around check: an interval ≥ 2^63 − h queues the request under a past or negative height, where no begin blocker ever looks - it is never fulfilled and never leaves the queue")
+	}
 }
 
 // coExecutedInLoop: a and one of bs are in the same frame/function region where
